@@ -43,7 +43,9 @@ def cases(draw, tier):
             "adiabatic": draw(st.sampled_from([True, True, False])), "schedule": draw(gen.schedules(8)),
             "modes": [list(x) for x in draw(st.lists(st.tuples(st.integers(-3, 3), st.integers(0, 2), st.floats(0.2, 2),
                                                                st.floats(0, 6.3)), min_size=1, max_size=3))],
-            "noise": draw(st.sampled_from([0.0, 0.3]))}
+            "noise": draw(st.sampled_from([0.0, 0.3])),
+            # quadrature exactness requested from the solver (the driver asks for 7; the class accepts any)
+            "qdeg": draw(st.sampled_from([7, 7, 6, 8, 5, 4]))}
 
 
 def density(c, eta, second=False):
@@ -62,7 +64,8 @@ def density(c, eta, second=False):
 
 
 def _rank(ctx, c):
-    rs = sim.RankSim(ctx.comm, c["cfg"], c["nprocs"], diagnostics=False, chi=c["chi"], adiabatic=c["adiabatic"])
+    rs = sim.RankSim(ctx.comm, c["cfg"], c["nprocs"], diagnostics=False, chi=c["chi"], adiabatic=c["adiabatic"],
+                     qn_degree=c.get("qdeg", 7))
     eta = rs.f.eta_grid
     R = density(c, eta)
     rho, phi = rs.rho, rs.phi
@@ -114,10 +117,10 @@ def reference_phi(c, eta, rbasis, consts, second=False):
 
     def Ef(x):
         return Bc * Bc / advect.n0(x, cd)
-    dense = fem.DenseFEM(space, rbasis, 7, lambda x: -1.0 + 0 * x, Bf, Cf, Df, Ef)
+    dense = fem.DenseFEM(space, rbasis, c.get("qdeg", 7), lambda x: -1.0 + 0 * x, Bf, Cf, Df, Ef)
     K0_m0 = None
     if c["adiabatic"] and c["chi"] == 1:
-        K0_m0 = fem.DenseFEM(space, rbasis, 7, lambda x: -1.0 + 0 * x, Bf, lambda x: 0.0 * x, Df, Ef).K0
+        K0_m0 = fem.DenseFEM(space, rbasis, c.get("qdeg", 7), lambda x: -1.0 + 0 * x, Bf, lambda x: 0.0 * x, Df, Ef).K0
     R = density(c, eta, second)
     Rh = np.fft.fft(R, axis=1)
     mv = np.fft.fftfreq(len(q), 1.0 / len(q))
